@@ -85,11 +85,29 @@ type bsess struct {
 	recs []string
 	next int
 	dead bool
+	x    bool // an X line: the records carry no head,n,len(vs) field (see xMode)
 	tags map[string]bool
 }
 
+// xMode: sessions created while it is set are X lines -- the B syntax and records without the hook
+// field, for buffers of 2^15 .. 2^16+1 slots, which the list-based extracted model cannot replay
+// in reasonable time (about 50 n^2 list steps per history).  The driver does not run the model on
+// them: it renders the records from a direct double-ended sequence (checked in lockstep against
+// the extracted reference QueueSpec.spec_step on the small B lines) and demands equality, so on X
+// lines "the model's prediction" and "the property" are the same computation (spec only).
+var xMode bool
+
+// hookText: "<head>,<n>,<len(vs)>/" on B lines, nothing on X lines.
+func (s *bsess) hookText() string {
+	if s.x {
+		return ""
+	}
+	h, n, l := s.state()
+	return fmt.Sprintf("%d,%d,%d/", h, n, l)
+}
+
 func newBSess(init string) *bsess {
-	s := &bsess{init: init, next: 1, tags: map[string]bool{}}
+	s := &bsess{init: init, next: 1, x: xMode, tags: map[string]bool{}}
 	res := tr.Catch(func() {
 		switch {
 		case init == "z":
@@ -134,9 +152,8 @@ func (s *bsess) rec(f func() string) {
 func (s *bsess) light(ret string) {
 	s.rec(func() string {
 		q := s.q
-		h, n, l := s.state()
 		pv, pok := q.Peek(-1)
-		return fmt.Sprintf("%s/%d,%d,%d/%d,%s/%d/%s", ret, h, n, l, q.Len(), tr.B(q.IsEmpty()), q.Front(), peekText(pv, pok))
+		return fmt.Sprintf("%s/%s%d,%s/%d/%s", ret, s.hookText(), q.Len(), tr.B(q.IsEmpty()), q.Front(), peekText(pv, pok))
 	})
 }
 
@@ -271,7 +288,7 @@ func (s *bsess) obs(j int) {
 		h, n, l := s.state()
 		ln := q.Len()
 		var b strings.Builder
-		fmt.Fprintf(&b, "o/%d,%d,%d/%d,%s/%d/", h, n, l, ln, tr.B(q.IsEmpty()), q.Front())
+		fmt.Fprintf(&b, "o/%s%d,%s/%d/", s.hookText(), ln, tr.B(q.IsEmpty()), q.Front())
 		sl := q.Slice()
 		if sl == nil {
 			b.WriteString("nil/")
@@ -369,11 +386,17 @@ func (s *bsess) emit(w *tr.W, tags ...string) {
 	if len(s.ops) > 0 {
 		ops = strings.Join(s.ops, ";")
 	}
-	w.Case("B "+s.init+" "+ops, strings.Join(s.recs, ";"), nontrivial, tags...)
+	kind := "B "
+	if s.x {
+		kind = "X "
+	}
+	w.Case(kind+s.init+" "+ops, strings.Join(s.recs, ";"), nontrivial, tags...)
 }
 
 func replayB(f []string) *bsess {
+	xMode = f[0] == "X"
 	s := newBSess(f[1])
+	xMode = false
 	if len(f) < 3 || f[2] == "-" {
 		return s
 	}
@@ -621,8 +644,10 @@ func sizeClass(size int) string {
 		return "2047..2049"
 	case size < 5000:
 		return "4095..4097"
+	case size < 20000:
+		return "8191..8193"
 	}
-	return "8191..8193"
+	return "2^15..2^16+1"
 }
 
 var depths = []string{"0", "1", "n/4", "n/2", "3n/4", "n-1"}
@@ -871,5 +896,72 @@ func genScale(o *tr.Opts, w *tr.W, r *tr.Rand) {
 		}
 		s.drainBoth(r, true)
 		s.emit(w, "scale", "scale-grow-drain-regrow")
+	}
+	genExact(o, w, r)
+}
+
+// genExact: X lines (see xMode) -- exactly 2^15-1, 2^15, 2^15+1, 2^16-1, 2^16, 2^16+1 slots, from
+// NewSize and grown from the zero value, the head at a depth that walks through all of them,
+// regrown by Add and by Push, observed on the whole contents, drained; one sparse-and-wrapped
+// history per size and one grow-drain-regrow history per power.  Quick tier: two of them.
+func genExact(o *tr.Opts, w *tr.W, r *tr.Rand) {
+	xMode = true
+	defer func() { xMode = false }()
+	allDepths := append(append([]string{}, depths...), probeDepths...)
+	sizes := []int{32767, 32768, 32769, 65535, 65536, 65537}
+	k := r.Intn(len(allDepths))
+	if !o.Thorough() {
+		scaleCase(w, r, 32768, 0, allDepths[k], 1, r.Intn(2), r.Intn(3), false)
+		scaleCase(w, r, 65537, 1, allDepths[(k+3)%len(allDepths)], 0, r.Intn(2), 0, false)
+		return
+	}
+	for _, size := range sizes {
+		for pair := 0; pair < 4; pair++ {
+			k++
+			from := pair >> 1
+			if from == 1 && r.Chance(1, 3) {
+				from = 2
+			}
+			scaleCase(w, r, size, from, allDepths[k%len(allDepths)], r.Intn(2), pair&1, k%3, r.Chance(1, 3))
+		}
+		// sparse and wrapped, drained in stages below 1/2, 1/4, 1/8
+		s := newBSess("s" + strconv.Itoa(size))
+		a := r.Range(size/4, size/2)
+		b := r.Range((size-a)/2, size-a)
+		s.pushes(a)
+		s.adds(b)
+		s.obs(a)
+		for _, frac := range []int{2, 4, 8} {
+			_, n, l := s.state()
+			if target := l/frac - 1; n > target {
+				x := r.Range(0, n-target)
+				s.pops(x)
+				s.popLasts(n - target - x)
+				h, _, _ := s.state()
+				s.obs(l - h)
+			}
+		}
+		s.fillExact(r, r.Intn(3))
+		s.adds(1)
+		s.drainBoth(r, true)
+		s.emit(w, "scale", "scale-sparse-wrapped", "scale-size-"+sizeClass(size))
+	}
+	for _, size := range []int{32768, 65536} {
+		s := newBSess(tr.Pick(r, []string{"z", "n", "s0", "s" + strconv.Itoa(size/2)}))
+		s.growTo(r, size, r.Intn(3))
+		for c := 0; c < 2; c++ {
+			_, n, _ := s.state()
+			keep := r.Range(n/8, n/2)
+			x := r.Range(0, n-keep)
+			s.pops(x)
+			s.popLasts(n - keep - x)
+			s.obs(keep / 2)
+			h0, _, l0 := s.state()
+			s.fillExact(r, r.Intn(3))
+			s.pushes(1)
+			s.obs(l0 - h0)
+		}
+		s.drainBoth(r, true)
+		s.emit(w, "scale", "scale-grow-drain-regrow", "scale-size-"+sizeClass(size))
 	}
 }
